@@ -70,7 +70,28 @@ func sessRoot(which string) string {
 
 // worldLoader serves the current world; documents are identified by their base name so that
 // the same world answers for the RelativeBase location and for the working directory.
-func worldLoader(log *[]string) func(string) (json.RawMessage, error) {
+// worldBufs: the world's loader reads every document into a buffer it keeps per location and hands that buffer out
+// (as a loader reading through a reused read buffer does): what it returned last time is overwritten by the next read
+var worldBufs = map[string][]byte{}
+
+func worldLoader(log *[]string, live *bool) func(string) (json.RawMessage, error) {
+	inner := worldLoader0(log)
+	return func(u string) (json.RawMessage, error) {
+		// a loader belongs to the call it was given to: using it once that call is over is a leak of state
+		if !*live {
+			return nil, errors.New("world: the loader of an EARLIER call was used for " + u)
+		}
+		b, err := inner(u)
+		if err != nil {
+			return nil, err
+		}
+		buf := append(worldBufs[u][:0], b...)
+		worldBufs[u] = buf
+		return json.RawMessage(buf), nil
+	}
+}
+
+func worldLoader0(log *[]string) func(string) (json.RawMessage, error) {
 	return func(u string) (json.RawMessage, error) {
 		*log = append(*log, u)
 		base := u[strings.LastIndex(u, "/")+1:]
@@ -198,7 +219,9 @@ func sessCall(st sessStep) (so sessStepObs) {
 		}
 	}()
 	var loads []string
-	loader := worldLoader(&loads)
+	live := true
+	defer func() { live = false }()
+	loader := worldLoader(&loads, &live)
 	old := spec.PathLoader
 	spec.PathLoader = loader
 	defer func() { spec.PathLoader = old }()
